@@ -159,7 +159,36 @@ func HarnessC03For() {
 // HarnessC03Nest: nested loops see their own loop object, the outer one is restored; @break inside the @else body
 // of an inner loop acts on the outer loop; iterating a non-array is an error.
 func HarnessC03Nest() {
-	switch vChoice("shape", 3) {
+	switch vChoice("shape", 4) {
+	case 3:
+		// a control directive inside the @else body of an inner loop (empty @each, or @for false at entry) acts on
+		// the surrounding loop
+		xs := symElems("x", 3)
+		k := string([]byte{vByte("k")})
+		ctrl := 1 + vChoice("ctrl", 4)
+		inner := []string{"@each(w in [])q@else", "@for(i = 0; i < 0; i++)q@else", "@each(w in [])q@else@if(t)", "@for(i = 1; i < 0; i++)q@else@if(t)"}[vChoice("inner", 4)]
+		closing := "@end"
+		if len(inner) > 22 && inner[len(inner)-6:] == "@if(t)" {
+			closing = "@end@end"
+		}
+		c := []string{"", "@break", "@continue", "@breakIf(v == k)", "@continueIf(v == k)"}[ctrl]
+		src := "@each(v in xs)({{ v }})" + inner + c + closing + "-@end"
+		want := ""
+		for _, v := range xs {
+			want += "(" + v + ")"
+			fire := ctrl <= 2 || v == k
+			if fire && (ctrl == 1 || ctrl == 3) {
+				break
+			}
+			if fire {
+				continue
+			}
+			want += "-"
+		}
+		out, err := EvaluateString(src, map[string]any{"xs": toAny(xs), "k": k, "t": true})
+		vCover("else-control")
+		vAssert(err == nil, "else-control-renders")
+		vAssert(vEqStr(out, want), "control-directive-in-an-inner-else-body-acts-on-the-surrounding-loop")
 	case 0:
 		xs := symElems("x", 2)
 		ys := symElems("y", 2)
